@@ -992,7 +992,9 @@ class _Visitor(ast.NodeVisitor):
         self.ctx = ctx
 
     def generic_visit(self, node: ast.AST) -> None:
-        raise NotImplementedError(f"no visitor implemented for {node!r}")
+        # Any other kind of expression is not a valid annotation; the caller
+        # treats None as an unrecognized annotation.
+        return None
 
     def visit_Name(self, node: ast.Name) -> Value:
         return self.ctx.get_name(node)
